@@ -187,6 +187,17 @@ class VOpt(Val):
         return 'VOpt(%s,%r)' % (self.isnone, self.inner)
 
 
+class VUnb(Val):
+    """a local that is bound only on some of the merged paths: `bound` (z3 Bool) tells when."""
+
+    def __init__(self, bound, val):
+        self.bound = bound
+        self.val = val
+
+    def __repr__(self):
+        return 'VUnb(%s,%r)' % (self.bound, self.val)
+
+
 class VRef(Val):
     def __init__(self, rid):
         self.rid = rid
